@@ -10,25 +10,31 @@ TRUSTED = ['Kani 0.68 / CBMC 6.11 + cadical', 'stubs: zeroize barrier; <R as Dro
 HINT_RULES = [(r'hint_bit_unpack::<2>', 12), (r'hint_bit_pack::<false, 2>', 258)]
 
 
-def harness_list(tier):
+def harness_list(tier, seed=0):
+    """measured on this machine (7 in parallel): hint window 11-14 min, all-bytes bijections 10-17 min, adjacent-pair round trips 7-8 min,
+    hint re-pack > 30 min.  Quick tier = one hint window (offset by seed) + two round trips + the t1 bijection; thorough = everything."""
     hs = []
-    for n in ('c08_hint_window_0', 'c08_hint_window_2', 'c08_hint_window_4'):
-        hs.append(Harness('verif_kani::c08::' + n, 'C08', timeout=1500, loop_rules=HINT_RULES[:1],
+    wins = ['c08_hint_window_0', 'c08_hint_window_2', 'c08_hint_window_4']
+    quick_wins = [wins[seed % 3]]
+    for n in (wins if tier == 'thorough' else quick_wins):
+        hs.append(Harness('verif_kani::c08::' + n, 'C08', timeout=2400, loop_rules=HINT_RULES[:1],
                           bounds='K=2, omega=8; both count bytes + 4 consecutive index bytes symbolic (all 2^48 values), strictly increasing concrete background; hint loops unwound 12x, 256-loops 258x, unwinding assertions on'))
-    hs.append(Harness('verif_kani::c08::c08_hint_repack', 'C08', timeout=1800, loop_rules=HINT_RULES[:1], bounds='K=2, omega=8; 6 symbolic bytes; real hint_bit_pack on the decoded hint'))
-    for n, b in (('c08_bitpack_t1', 'all 2^2560 byte strings of a t1 polynomial'), ('c08_bitpack_t0', 'all byte strings of a t0 polynomial'),
-                 ('c08_bitpack_z17', 'all byte strings of a z polynomial (gamma1 = 2^17)'), ('c08_bitpack_z19', 'all byte strings of a z polynomial (gamma1 = 2^19)')):
-        hs.append(Harness('verif_kani::c08::' + n, 'C08', timeout=2400, mem_gb=16, bounds=b + '; decoded index and re-encoded byte index symbolic'))
-    for n in ('c08_roundtrip_eta2', 'c08_roundtrip_eta4', 'c08_roundtrip_w1_44', 'c08_roundtrip_w1_65'):
-        hs.append(Harness('verif_kani::c08::' + n, 'C08', timeout=1500, bounds='two adjacent symbolic in-range coefficients at a symbolic position, zeros elsewhere'))
+    bij = [('c08_bitpack_t1', 'all 2^2560 byte strings of a t1 polynomial'), ('c08_bitpack_t0', 'all byte strings of a t0 polynomial'),
+           ('c08_bitpack_z17', 'all byte strings of a z polynomial (gamma1 = 2^17)'), ('c08_bitpack_z19', 'all byte strings of a z polynomial (gamma1 = 2^19)')]
+    for n, b in (bij if tier == 'thorough' else bij[:1]):
+        hs.append(Harness('verif_kani::c08::' + n, 'C08', timeout=3000, mem_gb=16, bounds=b + '; decoded index and re-encoded byte index symbolic'))
+    rts = ['c08_roundtrip_eta2', 'c08_roundtrip_eta4', 'c08_roundtrip_w1_44', 'c08_roundtrip_w1_65']
+    for n in (rts if tier == 'thorough' else [rts[seed % 2], rts[2 + seed % 2]]):
+        hs.append(Harness('verif_kani::c08::' + n, 'C08', timeout=2400, bounds='two adjacent symbolic in-range coefficients at a symbolic position, zeros elsewhere'))
     if tier == 'thorough':
-        hs.append(Harness('verif_kani::c08::c08_hint_exhaustive_k2_w4', 'C08', timeout=5400, mem_gb=24, loop_rules=[(r'hint_bit_unpack::<2>', 8)], best_effort=True,
+        hs.append(Harness('verif_kani::c08::c08_hint_repack', 'C08', timeout=7200, mem_gb=24, loop_rules=HINT_RULES[:1], best_effort=True, bounds='K=2, omega=8; 6 symbolic bytes; real hint_bit_pack on the decoded hint'))
+        hs.append(Harness('verif_kani::c08::c08_hint_exhaustive_k2_w4', 'C08', timeout=7200, mem_gb=24, loop_rules=[(r'hint_bit_unpack::<2>', 8)], best_effort=True,
                           bounds='every byte string of the hint section at K=2, omega=4'))
     return hs
 
 
 def run(run, scr, tier, seed, only=None):
-    hs = harness_list(tier)
+    hs = harness_list(tier, seed)
     if only:
         hs = [h for h in hs if any(o in h.name for o in only)]
     run.functions += ['src/conversion.rs::{hint_bit_unpack, hint_bit_pack, bit_unpack, bit_pack, simple_bit_pack}', 'src/helpers.rs::is_in_range']
@@ -36,6 +42,12 @@ def run(run, scr, tier, seed, only=None):
                                   'eta sections: acceptance == range rule is C10']
     results = vlib.run_kani(scr, hs, jobs=7)
     run.add_kani_results(results)
+    # every run also executes the native codec differential (real (K, omega), every malformation class): cheap, and it is what confirms a solver counterexample
+    res0, msgs0 = native(scr)
+    run.add_query({'name': 'native codec differential at the real (K, omega): real decoders / encoders vs spec-literal Algorithms 16-21 on structured malformed inputs', 'engine': 'native (confirmation workload)', 'verdict': 'holds' if set(res0.values()) == {'pass'} else 'sat', 'detail': msgs0[:3], 'trivial': True}, core=False)
+    if 'fail' in res0.values() and not any(r.status == 'failed' for r in results):
+        path = vlib.save_replay('C08', 'native', {'property': 'C08', 'kind': 'codec', 'native': res0, 'msgs': msgs0[:6]})
+        run.violation('codec-native', f'native codec differential: {msgs0[:3]} {res0}', path)
     for r in results:
         if r.status == 'failed':
             own, other = wrapc.split_failures(r, 'C08')
